@@ -11,6 +11,8 @@ Prog == ndJsonDeserialize("prog.ndjson")
 Meta == ndJsonDeserialize("meta.ndjson")[1]
 OldLen == Meta.oldlen
 NewLen == Meta.newlen
-VARIABLES dir, ino, fds, pc, killed, nextIno, act
+(* the router is restarted twice more: it then writes a shorter and a longer state than the first one *)
+NextLens == <<(IF NewLen > 4 THEN NewLen \div 3 ELSE 1), NewLen + 5>>
+VARIABLES dir, ino, fds, pc, killed, nextIno, gen, loaded, refused, act
 INSTANCE StateFile
 =============================================================================
